@@ -92,6 +92,20 @@ func vfGenTopo(s *vfSession) *vfTopo {
 	return t
 }
 
+// clearNAT removes all NAT mappings; addresses that were to be signalled as srflx (a public
+// address) are then signalled as plain host candidates, so that no two signalled candidates
+// share one transport address.
+func (t *vfTopo) clearNAT() {
+	t.NAT = map[string]string{}
+	for _, m := range []map[string]string{t.SignalA, t.SignalB} {
+		for ip, mode := range m {
+			if mode == "srflx" || mode == "host+srflx" {
+				m[ip] = "host"
+			}
+		}
+	}
+}
+
 func (t *vfTopo) cut(src, dst string) bool {
 	for _, u := range t.Unreach {
 		if u[0] == src && u[1] == dst {
@@ -444,18 +458,6 @@ func vfC01Run(e *vfEnv, r *vfResult, idx int) {
 
 func TestVerifC01(t *testing.T) {
 	vfRun(t, "C01", func(e *vfEnv, r *vfResult) {
-		n := e.n(3000, 200000)
-		for i := 0; i < n; i++ {
-			if e.only >= 0 && i != e.only {
-				continue
-			}
-			vfC01Run(e, r, i)
-		}
-	})
-}
-
-func TestVerifC03(t *testing.T) {
-	vfRun(t, "C03", func(e *vfEnv, r *vfResult) {
 		n := e.n(3000, 200000)
 		for i := 0; i < n; i++ {
 			if e.only >= 0 && i != e.only {
